@@ -87,7 +87,9 @@ def fit_then(ctx, det_base):
         sn = self_name(f)
         params = [a.arg for a in f.node.args.args][1:]
         fits = [n for n in ast.walk(f.node) if isinstance(n, ast.Call) and isinstance(n.func, ast.Attribute) and n.func.attr == "fit" and isinstance(n.func.value, ast.Name) and n.func.value.id == sn]
-        thens = [n.value for n in ast.walk(f.node) if isinstance(n, ast.Return) and isinstance(n.value, ast.Call) and isinstance(n.value.func, ast.Attribute) and n.value.func.attr == then]
+        from .common import return_exprs
+
+        thens = [v_ for v_ in return_exprs(f) if isinstance(v_, ast.Call) and isinstance(v_.func, ast.Attribute) and v_.func.attr == then]
         if len(fits) != 1 or len(thens) != 1:
             ctx.undecided(rule, name, f.loc(), f"{name} is not one self.fit(...) followed by one returned .{then}(...) ({len(fits)} fits, {len(thens)} returns)")
             continue
